@@ -36,7 +36,7 @@ def gen_case(rng):
         kinds = [k if k != "ca" else "cat" for k in kinds]
     if "ca" in kinds:
         kinds = ["ca"]
-    case = sc.gen_case(rng, kinds=kinds, max_n=4)
+    case = sc.gen_case(rng, kinds=kinds, max_n=4, derived_items=True)
     vars_, survey = sc.load(case)
     # zero-weight whole rows: weighted-empty but unweighted non-empty vectors
     if case["weighted"] and survey and rng.random() < 0.4:
